@@ -434,7 +434,7 @@ func buildImage(kind string, tree []imgEntry, start int64, opt map[string]int64)
 		case 3:
 			fo.Compression = &squashfs.CompressorZstd{}
 		default:
-			fo.Compression = &squashfs.CompressorGzip{}
+			fo.Compression = &squashfs.CompressorGzip{CompressionLevel: 6}
 		}
 		switch kind {
 		case "squashfs-nocomp":
